@@ -136,6 +136,17 @@ pub struct World {
     /// symbols looked up as globals that are not part of the runtime vocabulary
     pub unknown_globals: Vec<String>,
     pub stop_on_break: bool,
+    /// let/let* frames (a lambda bound there captures the frame that holds it: an Rc cycle that
+    /// is broken when the world is dropped)
+    frames: Vec<Env>,
+}
+
+impl Drop for World {
+    fn drop(&mut self) {
+        for f in self.frames.drain(..) {
+            f.vars.borrow_mut().clear();
+        }
+    }
 }
 
 const STEP_LIMIT: u64 = 5_000_000;
@@ -182,6 +193,7 @@ impl World {
             steps: 0,
             unknown_globals: vec![],
             stop_on_break: true,
+            frames: vec![],
         }
     }
 
@@ -258,6 +270,7 @@ impl World {
             "let*" | "let" => (|| {
                 let binds = items.get(1).and_then(|b| b.list()).ok_or("let*: bad binding list")?;
                 let new = Rc::new(Frame { vars: RefCell::new(vec![]), parent: Some(env.clone()) });
+                self.frames.push(new.clone());
                 for b in binds {
                     let pair = b.list().ok_or("let*: binding is not a list")?;
                     if pair.len() != 2 {
